@@ -63,7 +63,7 @@ ASSUMPTIONS = [
     'known defects of C11 are matched by their own signatures: every valid LIS file fails (C11-lis-null-value)',
 ]
 SHARDS = {'quick': 4, 'thorough': 16}
-REQUIRED_CLASSES = {'sub-directories:two-levels-down-recursive': 1, 'name-begins-with-the-whole-name-of-a-bad-file': 1, 'dot-name': 1, 'nontrivial': 1, 'jobs>1': 1, 'foreign-file': 1, 'damaged-sorts-first:names': 1, 'damaged-sorts-first:sizes': 1, 'empty-file': 1,
+REQUIRED_CLASSES = {'sub-directories:two-levels-down-recursive': 1, 'directories-given-as-relative-paths': 1, 'name-begins-with-the-whole-name-of-a-bad-file': 1, 'dot-name': 1, 'nontrivial': 1, 'jobs>1': 1, 'foreign-file': 1, 'damaged-sorts-first:names': 1, 'damaged-sorts-first:sizes': 1, 'empty-file': 1,
                     'converter:RP66V1': 1, 'converter:LIS': 1, 'converter:BIT': 1, 'orders-differ': 1}
 
 O_ESCAPE = 'no-exception-escapes'
@@ -315,6 +315,22 @@ def result_key(r):
     return (r.binary_file_type, r.size_input, r.size_output, r.las_count, bool(r.exception), bool(r.ignored))
 
 
+import contextlib
+
+
+@contextlib.contextmanager
+def _cwd(path):
+    if path is None:
+        yield
+        return
+    old = os.getcwd()
+    os.chdir(path)
+    try:
+        yield
+    finally:
+        os.chdir(old)
+
+
 def check(case, cc):
     logging.disable(logging.CRITICAL)
     from TotalDepth.common import Slice
@@ -326,6 +342,8 @@ def check(case, cc):
     recurse = bool(case.get('recurse'))
     walked = [i for i in range(len(files)) if recurse or not files[i].get('dir')]      # the files a walk of the directory finds
     cc.cls('name-begins-with-the-whole-name-of-a-bad-file', any(f.get('prefixed_by') for f in files))
+    relative = (len(files) + len(files[0]['name'])) % 2 == 0
+    cc.cls('directories-given-as-relative-paths', relative)
     cc.cls('dot-name', any(f['name'].startswith('.') or f.get('dir', '').startswith('.') for f in files))
     cc.cls('sub-directories', any(f.get('dir') for f in files))
     cc.cls('sub-directories:two-levels-down-recursive', recurse and any(f.get('dir', '').count('/') >= 1 for f in files))
@@ -380,7 +398,8 @@ def check(case, cc):
             seen.add((oracle, sig))
             cc.dev(oracle, sig, detail)
 
-    with tempfile.TemporaryDirectory(prefix='vt_c12_') as tmp:
+    with tempfile.TemporaryDirectory(prefix='vt_c12_') as real_tmp, _cwd(real_tmp if relative else None):
+        tmp = '' if relative else real_tmp        # relative: the directories are given the way a user types them (in, out)
         dir_in = os.path.join(tmp, 'in')
         os.makedirs(dir_in)
         for nm, d in zip(names, datas):
@@ -424,7 +443,8 @@ def check(case, cc):
                 continue
             if kinds[i] == 'valid' and (r.exception or r.ignored or r.las_count < 1):
                 sig = 'ignored' if r.ignored else (solo_why[i][0] if solo_why[i] else 'no-las-written')
-                if solo_why[i] and 'None of the channels' in solo_why[i][1] and 'is in Log Pass' in solo_why[i][1]:
+                if solo_why[i] and 'None of the channels' in solo_why[i][1] and 'is in Log Pass' in solo_why[i][1] and conv == 'LIS' \
+                        and c11.lis_implied_pass_without_requested(c11.SOURCES[conv](files[i]['src'])[1], case['channels']):
                     sig = 'failed:lis-implied-x-pass-holds-none-of-the-requested-channels'   # see C11
                 dev(O_VALID, 'valid-file:' + sig, '%s: valid file %r on its own: %r %s' % (what, names[i], r, solo_why[i][1] if solo_why[i] else ''))
             if kinds[i] in ('foreign', 'empty') and not (r.exception or r.ignored):
